@@ -12,8 +12,8 @@ import (
 
 func init() {
 	register(&PropMeta{
-		ID:    "C07",
-		Level: "other",
+		ID:          "C07",
+		Level:       "other",
 		Explanation: "Decides the structural backbone of the life cycle: (R1) every status store writes an enum constant and each constant is written only in the context that implements its transition (opened only on the clone in the function that numbers the hand; playing only after a successful hand Start; settled only where the continue step follows; standby only with the per-hand reset; pausing only in the continue handler under the pause predicate, in the external pause operation and as the initial status on a break; closed only in the close operation; balancing/created only at creation); (R2) exactly one +1 increment of the hand counter, on the clone, behind the blind guards; (R3) every call of the open step is dominated by 'no hand state exists' and made with the engine mutex held, and nil is stored to the hand state only by the continue step; (R4) the function that stores standby resets all per-hand fields on every path to a non-error exit, per player over the full list; (R5) closed/released are tested before pausing, before setting up the next hand and before opening; (R6) blind guards; (R7) open → install clone → start, settle → continue. NOT decided: timing of the asynchronous trigger; freshness of the game id (pokerface).",
 		Rules: map[string]string{
 			"R1": "who-may-write status, constant by constant, tied to the mechanism of the transition",
@@ -32,8 +32,8 @@ func init() {
 
 type lifecycle struct {
 	openFn, startFn, settleFn, continueFn, creator, driverOpen *ssa.Function
-	incr                                                         *StoreSite
-	startCall                                                    *ssa.Call
+	incr                                                       *StoreSite
+	startCall                                                  *ssa.Call
 }
 
 func (p *Prog) lifecycle() *lifecycle {
